@@ -256,6 +256,12 @@ def run_hist(case, ctx):
         a, b = split_frequency_dict_for_last_n_digits(dict(probs), n - k_mid)
         ctx.check("split_conservation", close(a, mid) and close(b, fin), "split_frequency_dict_for_last_n_digits parts are not the two marginals",
                   dict(wit, k_mid=k_mid, first=a, last=b))
+        # boundary splits: nothing / everything in the 'last n digits' part
+        a0, b0 = split_frequency_dict_for_last_n_digits(dict(probs), 0)
+        an, bn = split_frequency_dict_for_last_n_digits(dict(probs), n)
+        ctx.check("split_conservation", close(a0, probs) and close(b0, {"": 1.0}) and close(an, {"": 1.0}) and close(bn, probs),
+                  "split_frequency_dict_for_last_n_digits with n = 0 / n = all digits does not return (everything, nothing) / (nothing, everything)",
+                  dict(wit, n0=[a0, b0], nall=[an, bn]))
         # variable-length keys (what measurement-controlled circuits produce)
         var = {}
         for k, v in probs.items():
